@@ -10,7 +10,7 @@ from props.C12 import chunk_rules
 META = {
     "explanation": "Decides: (1) the four typed store functions are the only callers of put_local_record; (2) in each, the `key` of the "
                    "persisted Record is the result of NetworkAddress::to_record_key on an address taken from the deserialised content, or "
-                   "(transactions) a parameter that the filter closure compares with such a key for every element; the scratchpad store is "
+                   "(transactions) a parameter that a per-element filter (filter/retain closure whose verdict is the comparison, or a loop whose push is cut by it on every iteration) compares with such a key for every element kept; the scratchpad store is "
                    "additionally cut by scratchpad_key == record_key; (3) validate_key_and_existence returns Ok only behind "
                    "expected_record_key == address.to_record_key(), and in every storing arm of validate_and_store_record and "
                    "store_replicated_in_record (10 arms, exhaustive over RecordKind) the *presented* record.key is an operand of a key "
